@@ -354,6 +354,18 @@ def issueLaw (t : Step) : Viol :=
            else chk provsIssued.isEmpty "requests issued although too few providers are eligible (batch must be skipped)"))
   | _ => []
 
+/-- C07: the volume counts the accepted responses -/
+def volumeLaw (t : Step) : Viol :=
+  let keys := (t.pre.volume.map (·.1) ++ t.post.volume.map (·.1)).eraseDups
+  keys.flatMap (fun k =>
+    let a := getOr t.pre.volume k 0
+    let b := getOr t.post.volume k 0
+    match t.op with
+    | .respond r p _ _ =>
+      let mine := t.ok && (match Map.get t.pre.ctxs r.ctx with | some x => k == (x.cons, x.svc, p) | none => false)
+      chk (b == (if mine then a + 1 else a)) "request volume did not advance by exactly one for the accepted response"
+    | _ => chk (a == b) "request volume changed without a response")
+
 /-- C08 -/
 def respondLaw (t : Step) : Viol :=
   match t.op with
@@ -364,6 +376,8 @@ def respondLaw (t : Step) : Viol :=
     (if t.ok then chk ((Map.get t.post.resps r).isSome && !t.post.activeI.contains r) "accepted response not recorded or request still pending" else [])
   | _ => []
 
+def totalReached (x : Ctx) : Bool := decide ((0 : Int) ≤ x.total) && decide (x.total ≤ Int.ofNat x.batch)
+
 /-- C09 -/
 def lifecycle (t : Step) : Viol :=
   t.pre.ctxs.flatMap (fun p =>
@@ -371,7 +385,9 @@ def lifecycle (t : Step) : Viol :=
     match Map.get t.post.ctxs c with
     | none =>
       (match t.op with
-       | .endblock _ => []
+       | .endblock _ =>
+         chk (x.state != .paused) "a paused context was removed (only finished contexts are: killed, one-shot expired, total reached)" ++
+         chk (x.state != .running || !x.rep || totalReached x) "a running repeated context was removed before reaching its total"
        | _ => ["context removed outside end-of-block"])
     | some y =>
       chk (x.svc == y.svc && x.cons == y.cons && x.super == y.super && x.rep == y.rep && x.mod == y.mod) "immutable field of a context changed" ++
@@ -473,7 +489,7 @@ def allMonitors (t : Step) : List (String × Viol) :=
     ("ownerEarnings", ownerEarnings t.post), ("minDep", minDep t.post), ("indexes", indexes t.post),
     ("conservation", conservation t), ("supplyLaw", supplyLaw t), ("settlement", settlement t),
     ("batchDebit", batchDebit t), ("depositLaw", depositLaw t), ("slashLaw", slashLaw t),
-    ("authority", authority t), ("issueLaw", issueLaw t), ("respondLaw", respondLaw t),
+    ("authority", authority t), ("issueLaw", issueLaw t), ("volumeLaw", volumeLaw t), ("respondLaw", respondLaw t),
     ("lifecycle", lifecycle t), ("callbacks", callbacks t), ("withdrawLaw", withdrawLaw t),
     ("stability", stability t), ("noPanic", noPanic t), ("rejectedNoChange", rejectedNoChange t) ]
 
